@@ -221,15 +221,27 @@ def run_history(cfg, h, ref, res, case):
                 return
 
 
+def reference_in_fresh_process(cfg):
+    """the plain run in a brand-new interpreter: nothing that ran earlier in any process can have touched it"""
+    import json
+    import subprocess
+    import sys
+
+    p = subprocess.run([sys.executable, "-m", "vf.refsig", json.dumps(cfg)], capture_output=True, text=True, timeout=3600)
+    for ln in p.stdout.splitlines():
+        if ln.startswith("REFSIG "):
+            return json.loads(ln[7:])
+    raise core.HarnessError(f"reference run failed for {cfg}: {p.stdout[-300:]} {p.stderr[-300:]}")
+
+
 def run_designs(case, res):
     cfg = case["cfg"]
-    m = fresh(cfg)
-    set_design(m, cfg)
-    e = physics.find(m)
-    if e is not None:
-        res["violations"].append(core.viol("reference_design_failed", case, msg=f"{cfg}: the plain 'D F' run raised {type(e).__name__}: {e}"))
+    if case.get("reference_only"):
+        res["ref"] = reference_in_fresh_process(cfg)
+        res["evals"] += 1
+        res.outcome("reference_runs")
         return
-    ref = full_signature(m)
+    ref = case.get("ref") or reference_in_fresh_process(cfg)
     res["ref"] = ref
     for h in case["histories"]:
         run_history(cfg, h, ref, res, case)
@@ -332,11 +344,13 @@ def main(run: core.Run, only=None):
     if not quick:
         dcfgs += [{"method": "rectangle", "pipe": "coaxial"}, {"method": "birectangle", "pipe": "single", "flow": "system"}, {"method": "bizoned", "pipe": "double_series"},
                   {"method": "constrained", "pipe": "single"}]
+    refres = run.drive([{"family": "designs", "cfg": cfg, "reference_only": True} for cfg in dcfgs], family="design-references")
+    refs0 = {core.canon(cfg): r["ref"] for cfg, r in zip(dcfgs, refres)}
     cases = []
     per = 3 if quick else 4
     for cfg in dcfgs:
         for i in range(0, len(hs), per):
-            cases.append({"family": "designs", "cfg": cfg, "histories": hs[i:i + per]})
+            cases.append({"family": "designs", "cfg": cfg, "histories": hs[i:i + per], "ref": refs0[core.canon(cfg)]})
     results = run.drive(cases, family="designs")
     # the reference signature must be the same in every process that computed it
     refs = {}
